@@ -260,7 +260,10 @@ def main(prop, tier='quick', seed=0, replay=None, only=None, jobs=None):
             trace_violations.append(dict(cond=b['cond'], args=b['args'], got=b['got'], exp=b['exp'], source='trace'))
     entered = rm['entered']
     unreached = []
+    violated_conds = {v['cond'] for v in trace_violations}
     for c in conds:
+        if c.name in violated_conds:
+            continue   # the body stops early on a real violation: reachability is judged on clean runs only
         for f in c.functions:
             if not entered.get(f) and not entered.get(f.split('.')[-1]):
                 unreached.append(f'{c.name}: {f}')
